@@ -49,6 +49,7 @@ type FuncContract struct {
 	Inline       bool // force inlining at call sites instead of modular use
 	Terminate    bool
 	Captures     []*Clause // closures: facts about captured variables, checked where the closure is created
+	IfaceCheck   bool      // this is an interface contract being checked against one implementer
 	AlsoFor      []string  // properties for which only the explicitly tagged obligations of this function count
 	GlobalInvs   []*TypeDecl
 	Implementers bool // iface: every implementer in the loaded program is verified against this contract
@@ -181,6 +182,7 @@ type ContractSet struct {
 	pkgUFuns   map[string]*UFun
 	StrPreds   []string
 	Sinks      []*SinkDecl
+	PurePkgs   map[string]bool // package paths whose functions and interface methods are deterministic and effect-free
 	Scopes     []*ScopeDecl
 	TypeDecls  []*TypeDecl
 	pkgOf      map[string]*types.Package // contract name -> package of the file declaring it
@@ -419,6 +421,14 @@ func (cs *ContractSet) parseLines(fname string, lines []struct {
 				td.Props = rePropID.FindAllString(full[len(rest):], -1)
 			}
 			cs.TypeDecls = append(cs.TypeDecls, td)
+			cur, curLemma = nil, nil
+		case "purepkg":
+			// purepkg <import path>: every function, method and interface method of the package is a deterministic
+			// function of its arguments without effects (assumed; e.g. accessors of an immutable parse tree)
+			if cs.PurePkgs == nil {
+				cs.PurePkgs = map[string]bool{}
+			}
+			cs.PurePkgs[strings.TrimSpace(stripComment(rest))] = true
 			cur, curLemma = nil, nil
 		case "sinks":
 			full := rest
